@@ -40,19 +40,23 @@ Proof.
     destruct (sl_ok_frame A oA A' e W (id, KSl i) (nth i l None)); auto.
 Qed.
 
-Lemma comp_mp_upd M oM M' e id l f m' :
-  comp_mp oM id l -> frame [] (eq (id, f)) M oM M' -> mp_ok (oM ++ e) (id, f) m' ->
-  comp_mp (oM ++ e) id (upd_nth f m' l) /\
-  map (mp_read M') (upd_nth f m' l) = upd_nth f (mp_read M' m') (map (mp_read M) l).
+Lemma comp_mp_upd A M oA oM A' M' eA eM id l f k m' :
+  comp_mp A M oA oM id l -> frame [] (eq (id, KMap f k)) A oA A' -> frame [] (eq (id, f)) M oM M' ->
+  hm_ok A' M' (oA ++ eA) (oM ++ eM) (id, f) m' ->
+  comp_mp A' M' (oA ++ eA) (oM ++ eM) id (upd_nth f m' l) /\
+  map (mp_read A' M') (upd_nth f m' l) = upd_nth f (mp_read A' M' m') (map (mp_read A M) l).
 Proof.
-  intros Hc F Hs. split.
+  intros Hc FA FM Hs.
+  assert (Hoth : forall i, i <> f -> hm_ok A' M' (oA ++ eA) (oM ++ eM) (id, i) (nth i l None) /\
+                                     mp_read A' M' (nth i l None) = mp_read A M (nth i l None)).
+  { intros i N. apply (hm_ok_frame A M oA oM A' M' eA eM (eq (id, KMap f k)) (eq (id, f)) (id, i) _ (Hc i)); auto.
+    - intros E; inversion E; congruence.
+    - intros k0 E; inversion E; simpl in *; congruence. }
+  split.
   - intros i. rewrite nth_upd_case. destruct (Nat.eqb_spec f i).
     + subst. destruct (Nat.ltb_spec i (length l)); simpl; [exact Hs|]. rewrite nth_overflow by lia. exact I.
-    + simpl. destruct (mp_ok_frame M oM M' e (eq (id, f)) (id, i) (nth i l None)); auto.
-      intros E; inversion E; congruence.
-  - rewrite map_upd_nth. apply upd_nth_map_ext with (d := None). intros i Hi.
-    destruct (mp_ok_frame M oM M' e (eq (id, f)) (id, i) (nth i l None)); auto.
-    intros E; inversion E; congruence.
+    + simpl. apply Hoth; auto.
+  - rewrite map_upd_nth. apply upd_nth_map_ext with (d := None). intros i Hi. apply Hoth; auto.
 Qed.
 
 Definition WAid (id : oid) (t : atag) : Prop := fst t = id.
@@ -75,7 +79,7 @@ Proof. intros <-. apply map_nth. Qed.
 
 Lemma sl_read_nth A l i : nth i (map (sl_read A) l) [] = sl_read A (nth i l None).
 Proof. now apply nth_map_default. Qed.
-Lemma mp_read_nth M l i : nth i (map (mp_read M) l) [] = mp_read M (nth i l None).
+Lemma mp_read_nth A M l i : nth i (map (mp_read A M) l) [] = mp_read A M (nth i l None).
 Proof. now apply nth_map_default. Qed.
 
 (* the retry record after c.getRetryOption() *)
@@ -119,10 +123,16 @@ Proof. intros; subst; reflexivity. Qed.
 (* ---- a heap update that only touches the arrays tagged (id, KSl f) ---- *)
 (* W: the tags of the arrays the update may have written: (id, KSl f) and scratch arrays of id *)
 Definition fieldW (id : oid) (f : nat) (W : atag -> Prop) : Prop :=
-  (forall i, i <> f -> ~ W (id, KSl i)) /\ ~ W (id, KConds) /\ ~ W (id, KHooks) /\ (forall t, W t -> fst t = id).
+  (forall i, i <> f -> ~ W (id, KSl i)) /\ ~ W (id, KConds) /\ ~ W (id, KHooks) /\ (forall t, W t -> fst t = id) /\
+  (forall g k, ~ W (id, KMap g k)).
 
 Lemma fieldW_eq id f : fieldW id f (eq (id, KSl f)).
-Proof. repeat split; try (intros E; inversion E; fail). - intros i N E; inversion E; congruence. - now intros t <-. Qed.
+Proof.
+  repeat split; try (intros E; inversion E; fail).
+  - intros i N E; inversion E; congruence.
+  - now intros t <-.
+  - intros g k E; inversion E.
+Qed.
 
 Lemma sim_sl_fieldW W H ow id o f A' s' e rd :
   lens H ow -> obj_ok H ow id o -> fieldW id f W ->
@@ -132,8 +142,9 @@ Lemma sim_sl_fieldW W H ow id o f A' s' e rd :
   lens H' (ext ow e [] [] []) /\ idframe id H ow H' /\ obj_ok H' (ext ow e [] [] []) id o' /\
   abs_obj H' o' = vset_sl (abs_obj H o) (upd_nth f rd (v_sl (abs_obj H o))).
 Proof.
-  intros (La & Lm & Lr & Lj) [O1 O2 O3 O4 O5] (W1 & W2 & W3 & W4) L Ok Rd F H' o'.
+  intros (La & Lm & Lr & Lj) [O1 O2 O3 O4 O5] (W1 & W2 & W3 & W4 & W5) L Ok Rd F H' o'.
   destruct (comp_sl_upd W _ _ _ e _ _ _ _ O1 F W1 Ok) as [C1 E1].
+  destruct (comp_mp_frame _ _ _ _ A' (maps H) e [] W (fun _ => False) _ _ O2 F (frame_refl _ _ _ _)) as [C2 E2]; auto.
   destruct (rt_ok_frame _ _ _ _ A' (recs H) e [] W (fun _ => False) _ _ O3 F (frame_refl _ _ _ _)) as [C3 E3]; auto.
   split; [|split; [|split]].
   - unfold lens, ext; simpl. rewrite !app_nil_r. auto.
@@ -152,22 +163,27 @@ Lemma sim_sl_field H ow id o f A' s' e rd :
   abs_obj H' o' = vset_sl (abs_obj H o) (upd_nth f rd (v_sl (abs_obj H o))).
 Proof. intros L O. apply sim_sl_fieldW; auto. apply fieldW_eq. Qed.
 
-Lemma sim_mp_field H ow id o f M' m' e rd :
+Lemma sim_mp_field H ow id o f k A' M' m' eA eM rd :
   lens H ow -> obj_ok H ow id o ->
-  length (owM ow ++ e) = length M' -> mp_ok (owM ow ++ e) (id, f) m' ->
-  mp_read M' m' = rd -> frame [] (eq (id, f)) (maps H) (owM ow) M' ->
-  let H' := with_maps H M' in let o' := set_mp o (upd_nth f m' (o_mp o)) in
-  lens H' (ext ow [] e [] []) /\ idframe id H ow H' /\ obj_ok H' (ext ow [] e [] []) id o' /\
+  length (owA ow ++ eA) = length A' -> length (owM ow ++ eM) = length M' ->
+  hm_ok A' M' (owA ow ++ eA) (owM ow ++ eM) (id, f) m' -> mp_read A' M' m' = rd ->
+  frame [] (eq (id, KMap f k)) (arrs H) (owA ow) A' -> frame [] (eq (id, f)) (maps H) (owM ow) M' ->
+  let H' := with_maps (with_arrs H A') M' in let o' := set_mp o (upd_nth f m' (o_mp o)) in
+  lens H' (ext ow eA eM [] []) /\ idframe id H ow H' /\ obj_ok H' (ext ow eA eM [] []) id o' /\
   abs_obj H' o' = vset_mp (abs_obj H o) (upd_nth f rd (v_mp (abs_obj H o))).
 Proof.
-  intros (La & Lm & Lr & Lj) [O1 O2 O3 O4 O5] L Ok Rd F H' o'.
-  destruct (comp_mp_upd _ _ _ e _ _ _ _ O2 F Ok) as [C1 E1].
+  intros (La & Lm & Lr & Lj) [O1 O2 O3 O4 O5] LA LM Ok Rd FA FM H' o'.
+  destruct (comp_mp_upd _ _ _ _ _ _ eA eM _ _ _ _ _ O2 FA FM Ok) as [C2 E2].
+  destruct (comp_sl_frame _ _ _ eA _ _ _ O1 FA) as [C1 E1].
+  { intros i E; inversion E. }
+  destruct (rt_ok_frame _ _ _ _ A' (recs H) eA [] (eq (id, KMap f k)) (fun _ => False) _ _ O3 FA (frame_refl _ _ _ _)) as [C3 E3];
+    try (intros E; inversion E; fail); auto.
   split; [|split; [|split]].
   - unfold lens, ext; simpl. rewrite !app_nil_r. auto.
-  - unfold idframe, hframe; simpl. split; [apply frame_refl|].
-    split; [eapply frame_weaken; [|exact F]; intros t <-; reflexivity|]. split; apply frame_refl.
+  - unfold idframe, hframe; simpl. split; [eapply frame_weaken; [|exact FA]; intros t <-; reflexivity|].
+    split; [eapply frame_weaken; [|exact FM]; intros t <-; reflexivity|]. split; apply frame_refl.
   - constructor; simpl; auto; rewrite ?app_nil_r; auto.
-  - rewrite !abs_obj_eq. unfold vset_mp; simpl. apply vobj_eq; auto. now rewrite E1, Rd.
+  - rewrite !abs_obj_eq. unfold vset_mp; simpl. apply vobj_eq; auto. now rewrite E2, Rd.
 Qed.
 
 (* ---- an update of the retry record r of object id (fields and/or its slices) ---- *)
@@ -184,6 +200,8 @@ Proof.
   intros (La & Lm & Lr & Lj) [O1 O2 O3 O4 O5] L1 L2 FA FR Ok Rd H' o'.
   destruct (comp_sl_frame _ _ _ eA _ _ _ O1 FA) as [C1 E1].
   { intros i [E|E]; inversion E. }
+  destruct (comp_mp_frame _ _ _ _ A' (maps H) eA [] _ (fun _ => False) _ _ O2 FA (frame_refl _ _ _ _)) as [C2 E2]; auto.
+  { intros g k [E|E]; inversion E. }
   split; [|split; [|split]].
   - unfold lens, ext; simpl. rewrite !app_nil_r. auto.
   - unfold idframe, hframe; simpl.
@@ -403,7 +421,8 @@ Proof.
     - intros i N [X|X]; inversion X; congruence.
     - intros [X|X]; inversion X.
     - intros [X|X]; inversion X.
-    - intros t [-> | ->]; reflexivity. }
+    - intros t [-> | ->]; reflexivity.
+    - intros g k [X|X]; inversion X. }
   rewrite <- app_assoc in L2, K2.
   eapply sim_res_eq; [eapply sim_intro; exact (sim_sl_fieldW W H ow id o f A2 s' (e1 ++ e2) _ L O HW L2 K2 R2 FW)|].
   rewrite Rf. cbn [abs_obj v_sl]. now rewrite sl_read_nth.
@@ -517,15 +536,23 @@ Proof.
       * now apply ext_ok_app.
     + cbn [jar_read with_jars jars]. rewrite R1, (abs_ext_app _ (owJ ow1) _ id) by auto. rewrite EA1. reflexivity.
   - (* SMapSet *)
-    destruct (mp_update (maps H) (nth f (o_mp o) None) k (fun _ => [v])) as [M m'] eqn:E. inversion Hs; subst H' o'; clear Hs.
-    destruct (mp_update_spec _ (owM ow) (id, f) _ _ _ _ _ Lm (O2 f) E) as (e & L1 & K1 & R1 & F1).
-    eapply sim_res_eq; [eapply sim_intro; exact (sim_mp_field H ow id o f M m' e _ L O L1 K1 R1 F1)|].
-    cbn [vapply]. now rewrite <- mp_read_nth.
+    destruct (sl_lit (arrs H) [v]) as [A s'] eqn:E1.
+    destruct (mp_put (maps H) (nth f (o_mp o) None) k s') as [M m'] eqn:E2. injection Hs as <- <-.
+    destruct (sl_lit_spec _ (owA ow) (id, KMap f k) _ _ _ La E1) as (L1 & K1 & R1 & F1).
+    assert (F1' : frame [] (eq (id, KMap f k)) (arrs H) (owA ow) A) by (eapply frame_weaken; [|exact F1]; intros t []).
+    destruct (mp_put_spec (arrs H) A (maps H) (owA ow) [(id, KMap f k)] (owM ow) (id, f) _ k s' _ _ Lm (O2 f) F1' K1 E2)
+      as (e & L2 & K2 & R2 & F2).
+    eapply sim_res_eq; [eapply sim_intro; exact (sim_mp_field H ow id o f k A M m' [(id, KMap f k)] e _ L O L1 L2 K2 R2 F1' F2)|].
+    cbn [vapply]. rewrite R1. now rewrite <- mp_read_nth.
   - (* SMapAdd *)
-    destruct (mp_update (maps H) (nth f (o_mp o) None) k (fun old => old ++ [v])) as [M m'] eqn:E. inversion Hs; subst H' o'; clear Hs.
-    destruct (mp_update_spec _ (owM ow) (id, f) _ _ _ _ _ Lm (O2 f) E) as (e & L1 & K1 & R1 & F1).
-    eapply sim_res_eq; [eapply sim_intro; exact (sim_mp_field H ow id o f M m' e _ L O L1 K1 R1 F1)|].
-    cbn [vapply]. now rewrite <- mp_read_nth.
+    destruct (mp_slot_spec (arrs H) (maps H) (owA ow) (owM ow) (id, f) _ k (O2 f)) as [Ks Rs].
+    destruct (sl_append grow (arrs H) (mp_slot (maps H) (nth f (o_mp o) None) k) [v]) as [A s'] eqn:E1.
+    destruct (mp_put (maps H) (nth f (o_mp o) None) k s') as [M m'] eqn:E2. injection Hs as <- <-.
+    destruct (sl_append_spec _ _ (owA ow) (id, KMap f k) _ _ _ _ La Ks E1) as (e1 & L1 & K1 & R1 & F1).
+    destruct (mp_put_spec (arrs H) A (maps H) (owA ow) e1 (owM ow) (id, f) _ k s' _ _ Lm (O2 f) F1 K1 E2)
+      as (e & L2 & K2 & R2 & F2).
+    eapply sim_res_eq; [eapply sim_intro; exact (sim_mp_field H ow id o f k A M m' e1 e _ L O L1 L2 K2 R2 F1 F2)|].
+    cbn [vapply]. rewrite R1, Rs. now rewrite <- mp_read_nth.
   - (* SRetryCount *)
     destruct (get_retry H o) as [[H1 o1] r] eqn:G. inversion Hs; subst H' o'; clear Hs.
     destruct (get_retry_view _ _ _ _ _ _ _ L O G) as (EA & Kc & Kh & Vr).
@@ -766,34 +793,40 @@ Proof.
     + eapply frame_trans; eauto.
 Qed.
 
-Lemma clone_mps_spec dst : forall l modes k (M : list mapcell) (oM : list mtag) M' l',
-  (forall i, nth i modes true = true) -> length oM = length M ->
-  clone_mps modes M l = (M', l') ->
-  exists e, length (oM ++ e) = length M' /\
-    (forall i, mp_ok (oM ++ e) (dst, k + i) (nth i l' None)) /\
-    (forall src, (forall i, mp_ok oM (src, k + i) (nth i l None)) -> map (mp_read M') l' = map (mp_read M) l) /\
-    frame [] (fun _ : mtag => False) M oM M'.
+Lemma clone_mps_spec dst src : forall l modes k A (M : list hmapcell) oA (oM : list mtag) A' M' l',
+  (forall i, nth i modes true = true) -> length oA = length A -> length oM = length M ->
+  (forall i, hm_ok A M oA oM (src, k + i) (nth i l None)) ->
+  clone_mps modes A M l = (A', M', l') ->
+  exists eA eM, length (oA ++ eA) = length A' /\ length (oM ++ eM) = length M' /\
+    (forall i, hm_ok A' M' (oA ++ eA) (oM ++ eM) (dst, k + i) (nth i l' None)) /\
+    map (mp_read A' M') l' = map (mp_read A M) l /\
+    frame [] (fun _ : atag => False) A oA A' /\ frame [] (fun _ : mtag => False) M oM M'.
 Proof.
-  induction l as [|m t IH]; intros modes k M oM M' l' Hm HL Hc; cbn [clone_mps] in Hc.
-  - inversion Hc; subst. exists []. rewrite app_nil_r. repeat split; auto. intros i; destruct i; exact I.
+  induction l as [|m t IH]; intros modes k A M oA oM A' M' l' Hm LA LM Hok Hc; cbn [clone_mps] in Hc.
+  - inversion Hc; subst. exists [], []. rewrite !app_nil_r. repeat split; auto. intros i; destruct i; exact I.
   - assert (M0 : hd true modes = true) by (specialize (Hm 0); destruct modes; auto).
     rewrite M0 in Hc.
-    destruct (mp_clone M m) as [M1 m1] eqn:E1.
-    destruct (clone_mps (tl modes) M1 t) as [M2 t2] eqn:E2. inversion Hc; subst M' l'; clear Hc.
-    destruct (mp_clone_spec _ oM (dst, k + 0) _ _ _ HL E1) as (e1 & L1 & K1 & R1 & F1).
-    destruct (IH (tl modes) (S k) M1 (oM ++ e1) M2 t2) as (e2 & L2 & K2 & R2 & F2); auto.
+    destruct (mp_clone A M m) as [[A1 M1] m1] eqn:E1.
+    destruct (clone_mps (tl modes) A1 M1 t) as [[A2 M2] t2] eqn:E2. inversion Hc; subst A' M' l'; clear Hc.
+    pose proof (Hok 0) as H0. cbn [nth] in H0.
+    destruct (mp_clone_spec _ _ oA oM (dst, k + 0) (src, k + 0) _ _ _ _ LA LM H0 E1) as (eA1 & eM1 & LA1 & LM1 & K1 & R1 & FA1 & FM1).
+    assert (Hok1 : forall i, hm_ok A1 M1 (oA ++ eA1) (oM ++ eM1) (src, S k + i) (nth i t None) /\
+                             mp_read A1 M1 (nth i t None) = mp_read A M (nth i t None)).
+    { intros i. specialize (Hok (S i)). replace (k + S i) with (S k + i) in Hok by lia. cbn [nth] in Hok.
+      apply (hm_ok_frame A M oA oM A1 M1 eA1 eM1 (fun _ => False) (fun _ => False) _ _ Hok); auto. }
+    destruct (IH (tl modes) (S k) A1 M1 (oA ++ eA1) (oM ++ eM1) A2 M2 t2) as (eA2 & eM2 & LA2 & LM2 & K2 & R2 & FA2 & FM2); auto.
     { intros i. specialize (Hm (S i)). destruct modes; auto. destruct i; auto. }
-    exists (e1 ++ e2). rewrite app_assoc. split; [exact L2|]. split; [|split].
+    { intros i. apply Hok1. }
+    exists (eA1 ++ eA2), (eM1 ++ eM2). rewrite !app_assoc. split; [exact LA2|]. split; [exact LM2|].
+    destruct (hm_ok_frame A1 M1 _ _ A2 M2 eA2 eM2 (fun _ => False) (fun _ => False) _ _ K1) as [K1' R1']; auto.
+    split; [|split; [|split]].
     + intros [|i]; cbn [nth].
-      * apply (mp_ok_frame _ _ _ e2 _ _ _ K1 (fun x : False => x) F2).
+      * exact K1'.
       * replace (k + S i) with (S k + i) by lia. apply K2.
-    + intros src Hok. cbn [map]. f_equal.
-      * destruct (mp_ok_frame _ _ _ e2 _ _ _ K1 (fun x : False => x) F2) as [_ E]. now rewrite E.
-      * rewrite (R2 src).
-        -- apply map_nth_ext with (d := None). intros i. specialize (Hok (S i)).
-           apply (mp_ok_frame _ _ _ e1 _ _ _ Hok (fun x : False => x) F1).
-        -- intros i. specialize (Hok (S i)). replace (k + S i) with (S k + i) in Hok by lia.
-           apply (mp_ok_frame _ _ _ e1 _ _ _ Hok (fun x : False => x) F1).
+    + cbn [map]. f_equal.
+      * now rewrite R1', R1.
+      * rewrite R2. apply map_nth_ext with (d := None). intros i. apply Hok1.
+    + eapply frame_trans; eauto.
     + eapply frame_trans; eauto.
 Qed.
 
@@ -941,42 +974,55 @@ Proof.
   intros L O Hc. pose proof L as (La & Lm & Lr & Lj). pose proof O as [O1 O2 O3 O4 O5].
   unfold clone_obj in Hc. cbn [deep_tbl t_sl t_mp t_rt t_scal] in Hc.
   destruct (clone_sls (repeat true NSL) (arrs H) (o_sl o)) as [A1 sls] eqn:E1.
-  destruct (clone_mps (repeat true NMP) (maps H) (o_mp o)) as [M1 mps] eqn:E2.
-  destruct (rt_clone grow (with_maps (with_arrs H A1) M1) (o_rt o)) as [H2 rt] eqn:E3.
+  destruct (clone_mps (repeat true NMP) A1 (maps H) (o_mp o)) as [[A1' M1] mps] eqn:E2.
+  destruct (rt_clone grow (with_maps (with_arrs H A1') M1) (o_rt o)) as [H2 rt] eqn:E3.
   destruct (clone_boxes deep_tbl (jars H2) o) as [[J6 jar] x] eqn:E4.
   injection Hc as <- <-.
   destruct (clone_sls_spec dst src _ _ 0 _ (owA ow) _ _ (repeat_true_nth NSL) La O1 E1) as (e1 & LA1 & KA1 & RA1 & FA1).
-  destruct (clone_mps_spec dst _ _ 0 _ (owM ow) _ _ (repeat_true_nth NMP) Lm E2) as (e2 & LM1 & KM1 & RM1 & FM1).
-  specialize (RM1 src O2).
-  set (H1 := with_maps (with_arrs H A1) M1) in *.
-  assert (L1 : lens H1 (ext ow e1 e2 [] [])).
-  { unfold lens, ext, H1; simpl. rewrite !app_nil_r. auto. }
-  destruct (rt_ok_frame (arrs H) (recs H) (owA ow) (owR ow) A1 (recs H) e1 [] (fun _ => False) (fun _ => False) src (o_rt o)
-              O3 FA1 (frame_refl _ _ _ _)) as [O3' V3]; auto.
-  assert (O3'' : rt_ok (arrs H1) (recs H1) (owA (ext ow e1 e2 [] [])) (owR (ext ow e1 e2 [] [])) src (o_rt o)).
+  (* the source's maps read the same over A1 *)
+  destruct (comp_mp_frame _ _ _ _ A1 (maps H) e1 [] (fun _ => False) (fun _ => False) _ _ O2 FA1 (frame_refl _ _ _ _)) as [O2' RO2]; auto.
+  rewrite app_nil_r in O2'.
+  destruct (clone_mps_spec dst src _ _ 0 A1 (maps H) (owA ow ++ e1) (owM ow) _ _ _ (repeat_true_nth NMP) LA1 Lm O2' E2)
+    as (eA2 & e2 & LA2 & LM1 & KM1 & RM1 & FA2 & FM1).
+  rewrite RO2 in RM1.
+  assert (FA12 : frame [] (fun _ : atag => False) (arrs H) (owA ow) A1') by exact (frame_trans _ _ _ _ _ _ _ FA1 FA2).
+  set (H1 := with_maps (with_arrs H A1') M1) in *.
+  assert (L1 : lens H1 (ext ow (e1 ++ eA2) e2 [] [])).
+  { unfold lens, ext, H1; simpl. rewrite !app_nil_r, app_assoc. auto. }
+  destruct (rt_ok_frame (arrs H) (recs H) (owA ow) (owR ow) A1' (recs H) (e1 ++ eA2) [] (fun _ => False) (fun _ => False) src (o_rt o)
+              O3 FA12 (frame_refl _ _ _ _)) as [O3' V3]; auto.
+  assert (O3'' : rt_ok (arrs H1) (recs H1) (owA (ext ow (e1 ++ eA2) e2 [] [])) (owR (ext ow (e1 ++ eA2) e2 [] [])) src (o_rt o)).
   { unfold H1, ext; simpl. exact O3'. }
-  destruct (rt_clone_spec grow dst src H1 (ext ow e1 e2 [] []) (o_rt o) H2 rt L1 O3'' E3) as (eA3 & eR3 & L2 & EM2 & EJ2 & FA2 & FR2 & K3 & V2).
-  pose proof L2 as (La2 & Lm2 & Lr2 & Lj2). unfold ext in La2, Lm2, Lr2, Lj2, FA2, FR2, K3; simpl in La2, Lm2, Lr2, Lj2, FA2, FR2, K3.
-  rewrite ?app_nil_r in *.
-  assert (LJ2 : length (owJ ow) = length (jars H2)) by (rewrite EJ2; exact Lj).
-  assert (O4' : jar_ok (owJ ow) src (o_jar o) (o_fact o)) by exact O4.
+  destruct (rt_clone_spec grow dst src H1 (ext ow (e1 ++ eA2) e2 [] []) (o_rt o) H2 rt L1 O3'' E3) as (eA3 & eR3 & L2 & EM2 & EJ2 & FA3 & FR2 & K3 & V2).
+  pose proof L2 as (La2 & Lm2 & Lr2 & Lj2). unfold ext in La2, Lm2, Lr2, Lj2, FA3, FR2, K3; simpl in La2, Lm2, Lr2, Lj2, FA3, FR2, K3.
+  rewrite ?app_nil_r in *. rewrite (app_assoc (owA ow) e1 eA2) in *.
   rewrite EJ2 in E4.
   destruct (clone_boxes_spec dst src (jars H) (owJ ow) o _ _ _ Lj O4 O5 E4) as (e6 & L6 & F6 & KJ & KX & RJ & RX).
-  exists (e1 ++ eA3), e2, eR3, e6.
+  (* the clone's slices and maps as read in the final heap *)
+  assert (FA23 : frame [] (fun _ : atag => False) A1 (owA ow ++ e1) (arrs H2)) by exact (frame_trans _ _ _ _ _ _ _ FA2 FA3).
+  assert (KMF : forall i, hm_ok (arrs H2) M1 (((owA ow ++ e1) ++ eA2) ++ eA3) (owM ow ++ e2) (dst, i) (nth i mps None) /\
+                         mp_read (arrs H2) M1 (nth i mps None) = mp_read A1' M1 (nth i mps None)).
+  { intros i.
+    destruct (hm_ok_frame A1' M1 _ _ (arrs H2) M1 eA3 [] (fun _ => False) (fun _ => False) _ _ (KM1 i)) as [K R]; auto.
+    - apply frame_refl.
+    - rewrite app_nil_r in K. auto. }
+  exists ((e1 ++ eA2) ++ eA3), e2, eR3, e6.
   split; [|split; [|split]].
-  - unfold lens, ext; simpl. rewrite app_assoc. repeat split; auto; try (now rewrite EM2).
-  - unfold noframe, hframe; simpl. split; [eapply frame_trans; eauto|].
+  - unfold lens, ext; simpl. rewrite !app_assoc. repeat split; auto; try (now rewrite EM2).
+  - unfold noframe, hframe; simpl. split; [rewrite <- app_assoc in FA3; exact (frame_trans _ _ _ _ _ _ _ FA12 FA3)|].
     split; [now rewrite EM2|]. split; [exact FR2|exact F6].
   - constructor; unfold ext; simpl.
-    + intros i. rewrite app_assoc. apply (sl_ok_frame _ _ _ eA3 _ _ _ (KA1 i) (fun x : False => x) FA2).
-    + intros i. apply KM1.
-    + rewrite app_assoc. exact K3.
+    + intros i. rewrite !app_assoc. rewrite <- (app_assoc (owA ow ++ e1) eA2 eA3).
+      apply (sl_ok_frame _ _ _ (eA2 ++ eA3) _ _ _ (KA1 i) (fun x : False => x) FA23).
+    + intros i. rewrite EM2. rewrite !app_assoc. apply KMF.
+    + rewrite !app_assoc. exact K3.
     + exact KJ.
     + exact KX.
   - assert (ESL : map (sl_read (arrs H2)) sls = map (sl_read (arrs H)) (o_sl o)).
     { rewrite <- RA1. apply map_nth_ext with (d := None). intros i.
-      apply (sl_ok_frame _ _ _ eA3 _ _ _ (KA1 i) (fun x : False => x) FA2). }
-    assert (EMP : map (mp_read (maps H2)) mps = map (mp_read (maps H)) (o_mp o)) by (rewrite EM2; exact RM1).
+      apply (sl_ok_frame _ _ _ (eA2 ++ eA3) _ _ _ (KA1 i) (fun x : False => x) FA23). }
+    assert (EMP : map (mp_read (arrs H2) (maps H2)) mps = map (mp_read (arrs H) (maps H)) (o_mp o)).
+    { rewrite EM2, <- RM1. apply map_nth_ext with (d := None). intros i. apply KMF. }
     assert (ERT : rt_view (arrs H2) (recs H2) rt = rt_view (arrs H) (recs H) (o_rt o)) by (rewrite V2; exact V3).
     rewrite !abs_obj_eq. unfold vclone.
     cbn [v_sl v_mp v_rt v_chain v_tchain v_scal v_jar v_fact v_par v_ext
